@@ -1,7 +1,7 @@
 """C20 — array geometry helpers share the floor(n/2) centre convention.
 
 Tie: Gen/Util.lean (pad index block for 2-D arrays and cubes, subarray), Gen/Helper.lean (slice_offset), Gen/Helper20.lean
-(boundary_slice), Gen/Hex.lean (hex_directions, ring start, loop templates) are regenerated from the source on every run;
+(boundary_slice), Gen/Hex.lean (hex_directions, ring start, the hex_ring loops as folds, hex_neighbor) are regenerated from the source on every run;
 Model/Geometry.lean (array plumbing, boundary search, rebin, mesh, shapes, ring walk) is hand-written and compared here with
 the real functions: exactly on integer data, with 1e-9 tolerance where sqrt/sin/cos enter (drawn shapes)."""
 import itertools, math, numpy as np
@@ -15,7 +15,7 @@ LEVEL_TEXT = ('Lean 4 theorems, for all shapes/targets/parities: pad (2-D and cu
               'set is its mean position; mesh coordinates translate under integer '
               'shifts and negate under the half-turn index map; circle/rectangle/hexagon values lie in [0,1], are binary without '
               'antialiasing, translate under integer shifts (also spider) and are half-turn and mirror symmetric (hexagons in both orientations) — via the closure of their six '
-              'edge normals under negation/mirroring, proved for the real angles n·pi/3 + phi; hex_ring(k) has 6k cells at cube '
+              'edge normals under negation/mirroring, proved for the real angles n·pi/3 + phi; hex_ring is the loop-by-loop translation of the source (hex_ring_translated) and has 6k cells at cube '
               'distance k, pairwise distinct; a k-ring aperture has 1+3k(k+1) distinct cells minus the dropped numbers in range; for seg_gap > 0 '
               'two segments at distinct cells share no pixel (separating-axis argument over any ordered field, both orientations, with the '
               'exact sin/cos tables of the edge normals proved over R) and, for pad >= 2, every segment pixel has row/column index in '
@@ -26,12 +26,12 @@ LEVEL_NOTE = ('Trusted: Lean kernel, py2lean subset semantics, NumPy slicing/res
               'real-valued margin to the edge is < 1e-9), generator coverage. Known finding: hex_segments(seg_gap=0, antialias=False) '
               'shares edge pixels between neighbours. Unproven: equal area up to edge sampling (oracle only).')
 TECHNIQUE = 'Lean 4 proof (omega/induction/Finset sums) over translator-regenerated index kernel + hand model with differential correspondence'
-GEN = ['Util', 'Helper', 'Helper20', 'Hex', 'Mesh']
+GEN = ['Util', 'Helper', 'Helper20', 'Hex', 'Mesh', 'Extent', 'FieldAccum', 'FieldDispatch', 'FieldIdx', 'FieldMerge']      # every Gen module imported transitively (Model/Field)
 OPS = ['C20']
 RULE = ('cases: pad of 2-D arrays (all source/target sizes 1..9, every grow/shrink/parity mix) and cubes (depth 1..3, non-square), '
         'subarray incl. windows outside the array, boundary/boundary_slice/slice_offset on sparse integer arrays with thresholds and '
         'pads, rebin (2-D, cubes, non-divisible factors), centroid, hex_ring 0..6, hex_segments (rings 1..3, gaps >= 0, drop lists '
-        'with duplicates and out-of-range numbers, both orientations; also the library defaults antialias=True/pad=2/drop=(0,) compared as a flattened aperture), '
+        'with duplicates and out-of-range numbers, both orientations; segment centres, array size and overlap checked for every case, the WHOLE segment cube compared pixel by pixel with the model for rings x radius <= 10 and for one larger aperture in eight in the deeper tiers; also the library defaults antialias=True/pad=2/drop=(0,) compared as a flattened aperture), '
         'cross-helper cases (pad of a drawn shape = the shape drawn larger, crop = sub-array, centroid and bounding box of an integer-shifted shape), float and '
         'negative-weight centroids, rebin refusals (factor 0, complex), util.window (shape / slice / both / neither / one element / cube), '
         'circle/rectangle/hexagon/spider with dyadic parameters, shifts and rotations, antialiased and binary, incl. shapes much larger '
@@ -162,6 +162,9 @@ def generate(rng, tier):
             gap = [0.0, 0.5, 1.0, 1.5, 2.0, 3.0][int(rng.integers(0, 6))]
             out.append({'kind': 'segments', 'rings': rings, 'radius': _dy(rng, 3, 7), 'gap': gap, 'rotate': bool(rng.integers(0, 2)),
                         'drop': drop, 'pad': int(rng.integers(2, 4))})
+            # the pixel-by-pixel model of the whole segment cube costs ~1-2 s for the largest apertures: always for rings x radius <= 10,
+            # for the larger ones on one case in eight of the deeper tiers (never in the quick tier)
+            out[-1]['full_model'] = bool(rings * out[-1]['radius'] <= 10 or (tier != 'quick' and rng.integers(0, 8) == 0))
         else:
             shp = [int(rng.integers(5, 17)), int(rng.integers(5, 17))]
             shift = [_dy(rng, -3, 3), _dy(rng, -3, 3)] if rng.integers(0, 4) else [0.0, 0.0]
@@ -218,6 +221,7 @@ def nontrivial(c):
 def tags(c):
     k = c['kind']; t = [k]
     if c.get('scale', 1) != 1: t.append('boundary:scaled-data')
+    if k == 'segments': t.append('segments:full-cube-model' if c.get('full_model', c['rings'] * c['radius'] <= 10) else 'segments:centres-size-overlap-only')
     if 'dtype' in c: t.append('dtype:' + c['dtype'])
     if k in ('pad2', 'pad3', 'subarray', 'boundary', 'centroid', 'rebin') and max(c['shape']) > 64: t.append('large-array')
     if k in ('circle', 'rectangle', 'hexagon') and (max(abs(x) for x in c['shift']) > 16 or c.get('radius', 0) > 16 or c.get('width', 0) > 20):
@@ -368,7 +372,7 @@ def requests(c, io):
         reqs = [{'op': 'segments', 'rings': c['rings'], 'drop': c['drop']}]
         if 'ring_cells' in io:
             reqs.append({'op': 'hex_to_rc', 'cells': io['ring_cells'], 'radius': vlib.fbits(c['radius'] + c['gap'] / 2), 'rotate': c['rotate']})
-            if c['rings'] * c['radius'] <= 10:        # full-mask model run only on the smaller apertures (cost)
+            if c.get('full_model', c['rings'] * c['radius'] <= 10):        # see generate: all small apertures, a sample of the large ones in the deeper tiers
               reqs.append({'op': 'hex_segments', 'rings': c['rings'], 'radius': vlib.fbits(c['radius']), 'gap': vlib.fbits(c['gap']), 'rotate': c['rotate'],
                          'pad': c['pad'], 'drop': [d for d in c['drop']], 'theta': vlib.fl(_hex_thetas(c['rotate']))})
         return reqs
@@ -645,6 +649,15 @@ def oracle(c, io):
         if len(set(cells)) != len(cells): return 'hex_ring repeats a cell'
         for q, r, s in cells:
             if q + r + s != 0 or max(abs(q), abs(r), abs(s)) != kk: return f'hex_ring({kk}) cell {(q, r, s)} is not at cube distance {kk}'
+        # the documented walk (redblobgames): start at the corner (-k, k, 0), k steps along each of the six directions in table order — the
+        # order is what numbers the segments of hex_segments
+        dirs = [(1, 0, -1), (1, -1, 0), (0, -1, 1), (-1, 0, 1), (-1, 1, 0), (0, 1, -1)]
+        want = []; h = (-kk, kk, 0)
+        for i in range(6):
+            for _ in range(kk):
+                want.append(h); h = (h[0] + dirs[i][0], h[1] + dirs[i][1], h[2] + dirs[i][2])
+        for n_, (a, b) in enumerate(zip(cells, want)):
+            if a != b: return f'hex_ring({kk}) position {n_} is {a}, the walk from the corner (-k, k, 0) along the six directions gives {b} (segment numbering follows this order)'
         return None
     if k == 'mesh':
         if 'exc' in io: return f"mesh raised {io['exc']}"
